@@ -322,7 +322,7 @@ def run_check(prop, tier="quick", seed=0, jobs=None, spec=None):
         attributed = agg.ctr.get("diffs_attributed_to_history_dependence_C08", 0)
         if attributed:
             log("note: %d outcome difference(s) between the concurrent and the sequential run were reproduced by a purely sequential "
-                "execution in completion order: that is history dependence (property C08), not a thread-safety violation; run ./check C08" % attributed)
+                "execution in completion order: one thread's result depends on what another thread did earlier -- reported here as cross-talk and also a history dependence (property C08); run ./check C08" % attributed)
         log("%s %s: %d runs, %d distinct non-trivial, %d violation(s), known hits %s, %.1fs" % (
             prop, tier, runs, len(agg.nontrivial), len(reports), known_hits, wall))
         if runs == 0:
